@@ -539,7 +539,7 @@ def readJsFunc (isMethod : Bool) (text : List Char) : Option JFunc :=
 
 def readJsExpr (text : List Char) : Option JE :=
   (lexJs text).bind fun ts =>
-    match jExpr (10 * ts.length + 16) ts with
+    match jExpr (24 * ts.length + 16) ts with
     | some (e, []) => some e
     | _ => none
 
